@@ -135,6 +135,15 @@ def impl_variants(case):
             out["twice"] = trees.extract(d.root)
             out["parser_option"] = trees.extract(Document(xml, ParserOptions(reduce_whitespace=True)).root)
             out["TagNode.parse"] = trees.extract(TagNode.parse(xml, ParserOptions(reduce_whitespace=True)))
+            # a document loaded with the option, edited afterwards, reduced again by the method (seeded C07-8: the method
+            # trusting the option)
+            d3 = Document(xml, ParserOptions(reduce_whitespace=True))
+            held3 = all_nodes(d3.root)  # noqa: F841
+            d3.root.append_children("  late \n text  ", " ")
+            d3.root.prepend_children(" \t")
+            before3 = trees.extract(d3.root)
+            d3.reduce_whitespace()
+            out["__edited_after_option"] = {"before": before3, "got": trees.extract(d3.root)}
         else:
             root = trees.build_api(case["tree"])
             held = list(root.iterate_descendants())  # keep chained text nodes alive
@@ -206,6 +215,12 @@ def judge(run: Run, stream, case, before, variants, model):
     run.count("size", min(trees.size(before), 30) // 5 * 5)
     for pr in variants.pop("handles", []):
         run.violation(stream, case, {"why": pr, "before": before})
+    edited = variants.pop("__edited_after_option", None)
+    if edited is not None and not known:
+        want = trees.canon(spec_reduce(trees.merge_text(edited["before"])))
+        if trees.canon(edited["got"]) != want:
+            run.violation(stream, case, {"variant": "reduce_whitespace() on a document that was loaded with the reduce option and "
+                                                    "edited afterwards", "before": edited["before"], "got": edited["got"], "expected": want})
     for name, got in variants.items():
         if isinstance(got, str):
             if not known:
